@@ -52,7 +52,7 @@ def in_d8(cfg):
 
 def draw_config(draw, ctx, nps, n_jobs_choices=(1,)):
     for _ in range(20):
-        cfg = draw(gen.config_st(nps=nps, arm_kinds=("int", "str"), max_arms=4, with_binarizer=True, scale_ok=True,
+        cfg = draw(gen.config_st(nps=nps, arm_kinds=("int", "str", "float", "mix"), max_arms=4, with_binarizer=True, scale_ok=True,
                                  defaults_ok=True, tree_parallel_ok=True, n_jobs_choices=n_jobs_choices,
                                  metrics=gen.MANY_METRICS))
         if in_d7(cfg) and D7 in ctx.active:
@@ -353,9 +353,10 @@ def evaluate_joblib(plan, ctx):
         i = next(i for i, o in enumerate(want) if ops.is_exc(o))
         raise Violation("unexpected_exception", "n_jobs=1: op %d raised %s" % (i, ops.short(want[i])))
     nmax = max([len(op[1]) for op in plan["ops"] if op[0] in ("predict", "predict_expectations") and op[1]] + [1])
-    pairs = [(2, None), (3, "threading"), (nmax + 1, "threading"), (-1, "threading"), (-2, "threading"), (2, "loky")]
+    pairs = [(2, None), (3, "threading"), (nmax + 1, "threading"), (-1, "threading"), (-2, "threading"), (2, "loky"),
+             (40, "threading")]
     if ctx.tier == "thorough":
-        pairs += [(2, "multiprocessing"), (40, "threading")]
+        pairs += [(2, "multiprocessing"), (-1, "loky")]
     for nj, be in pairs:
         b = ops.build(dict(cfg, n_jobs=nj, backend=be))
         got = ops.run_ops(b, plan["ops"])
@@ -372,7 +373,7 @@ SUBCHECKS = [
     SubCheck("locality", locality_strategy, evaluate_locality, quick=2500, thorough=30000),
     SubCheck("schedule", schedule_strategy, evaluate_schedule, quick=3000, thorough=40000),
     SubCheck("schedule_all_orders", None, evaluate_schedule, 0, 0, enumerate_fn=schedule_enum),
-    SubCheck("joblib", joblib_strategy, evaluate_joblib, quick=32, thorough=400, workers=8, quick_s=70,
+    SubCheck("joblib", joblib_strategy, evaluate_joblib, quick=64, thorough=400, workers=8, quick_s=70,
              shrink=False),
 ]
 KNOWN = {}
